@@ -417,6 +417,19 @@ fn fault_section(shard: Shard, rep: &mut Report) {
                         if ctl.hit.lock().unwrap().is_empty() {
                             continue;
                         }
+                        // the operation's cost stays independent of the directory's size on error paths too (the call
+                        // sequence is the same up to the failing call whatever the size, so the same index is the same call)
+                        let big = observe_with(&case, 100, Some(Arc::new(FailAt { faults: vec![(k as u64, a)], kinds: vec![Some(ev.kind)], n: AtomicU64::new(0), hit: Mutex::new(vec![]) }) as Arc<dyn Controller>));
+                        if big.counts != o.counts || big.listed > 0 || o.listed > 0 {
+                            rep.violation(
+                                "resources:count-depends-on-size-after-fault",
+                                format!(
+                                    "{} with call {} ({}) failing {:?}: call counts with 10 entries {:?} (listing calls {}), with 100 entries {:?} (listing calls {})",
+                                    case.to_json(), k, ev.func, a, o.counts, o.listed, big.counts, big.listed
+                                ),
+                                json!({"fault_section": true}),
+                            );
+                        }
                         if o.residual != 0 || o.proc_residual != 0 {
                             rep.violation(
                                 "resources:fd-leak-after-fault",
@@ -512,7 +525,7 @@ pub fn run(_tier: Tier, shard: Shard, rep: &mut Report) {
         entries (over capacity, every third entry read; .kismet_temp also holding a stale file, a young file and a stale three-level directory \
         tree): nothing left open, no lock, the peak does not grow with the number of entries nor with the depth of the stale tree, \
         and for set/put and their temp-file variants it stays within 2 (3) (call counts legitimately grow there). And on error paths: every call of every scenario failing once in turn, nothing may stay open \
-        afterwards. Every case is non-trivial (4 sizes compared)."
+        afterwards, no directory is listed and the call counts with 10 and with 100 entries are identical. Every case is non-trivial (4 sizes compared)."
         .into();
     rep.assumptions = vec![
         "descriptors the scenario itself holds (the application's source temp file) are not attributed to the library".into(),
